@@ -775,6 +775,8 @@ impl PartitionedFileGroup {
             "No files would be left after deduplicating"
         );
         let mut commands = Vec::new();
+        // Symbolic links go first, while the files they point to still exist.
+        self.to_drop.sort_by_key(|f| f.link_metadata.is_none());
         // Link to a real file. A hard link to a symbolic link would be another symbolic link,
         // and a relative one would point to a different place.
         let is_link = |f: &PathAndMetadata| f.link_metadata.is_some();
@@ -1056,8 +1058,16 @@ where
 {
     script
         .into_par_iter()
-        .flat_map(|(_, cmd_vec)| cmd_vec)
-        .map(|cmd| cmd.execute(should_lock, log))
+        // The commands of one group are executed one after another, in the given order,
+        // because they may depend on each other: a symbolic link has to be processed before
+        // the file it points to is gone.
+        .map(|(_, cmd_vec)| {
+            cmd_vec
+                .into_iter()
+                .map(|cmd| cmd.execute(should_lock, log))
+                .collect::<Vec<_>>()
+        })
+        .flatten()
         .inspect(|res| {
             if let Err(e) = res {
                 log.warn(e);
